@@ -319,6 +319,7 @@ func TestCheck(t *testing.T) {
 	}
 	ns.States, ns.Transitions = 6, ns.Evaluations
 	ns.Samples = append(ns.Samples, "ParseFields(nil, \"p\")", "NewStore(Structs: [{Value: &int}])")
+	failingLookups(rep)
 	if err := rep.Write(env); err != nil {
 		t.Fatal(err)
 	}
@@ -587,4 +588,96 @@ func dupNames(s shape) bool {
 		seen[s.names[i]] = true
 	}
 	return false
+}
+
+// lookupFailSvc serves the known names and fails the lookup of one name in a chosen way.
+type lookupFailSvc struct {
+	svc
+	failName string
+	how      string // plain, cancel, deadline
+	cancel   context.CancelFunc
+}
+
+func (s *lookupFailSvc) Get(ctx context.Context, name string) (*api.SecretValue, error) {
+	if name == s.failName {
+		s.mu.Lock()
+		s.reqs = append(s.reqs, name)
+		s.mu.Unlock()
+		switch s.how {
+		case "cancel":
+			s.cancel() // the caller's context ends while this lookup is in flight
+			return nil, ctx.Err()
+		case "deadline":
+			return nil, fmt.Errorf("lookup: %w", context.DeadlineExceeded)
+		}
+		return nil, errors.New("service error")
+	}
+	return s.svc.Get(ctx, name)
+}
+
+func (s *lookupFailSvc) GetIfChanged(ctx context.Context, name string, old api.SecretVersion) (*api.SecretValue, error) {
+	if old == 1 {
+		return nil, api.ErrValueNotChanged
+	}
+	return s.Get(ctx, name)
+}
+
+type threeFields struct {
+	A string `setec:"a"`
+	B []byte `setec:"b"`
+	C string `setec:"c"`
+}
+
+// failingLookups: "a failure on one field neither prevents the others from being filled nor goes
+// unreported", when the failure is a lookup that fails - by a plain error or
+// because the caller's context ends during it - at each position of the struct.
+func failingLookups(rep *report.Report) {
+	sec := rep.Add(&report.Section{Name: "apply-with-a-failing-lookup", Engine: "enum", Exhaustive: true, Extra: map[string]int64{},
+		Rule: "a three-field struct applied to a lookup-enabled store that already holds two of the three secrets; the third has to be looked up and that lookup fails (plain error / the caller's context is cancelled during it), at each of the three positions: Apply must report the failing field and fill the two others; non-trivial = all"})
+	names := []string{"a", "b", "c"}
+	for pos := 0; pos < 3; pos++ {
+		for _, how := range []string{"plain", "cancel"} {
+			sec.Evaluations++
+			sec.Nontrivial++
+			ctx, cancel := context.WithCancel(context.Background())
+			sv := &lookupFailSvc{svc: svc{vals: map[string][]byte{}}, failName: "p/" + names[pos], how: how, cancel: cancel}
+			var known []string
+			for i, n := range names {
+				if i != pos {
+					sv.vals["p/"+n] = []byte("value-" + n)
+					known = append(known, "p/"+n)
+				}
+			}
+			desc := fmt.Sprintf("lookup of field %d (%s) fails (%s)", pos, names[pos], how)
+			st, err := setec.NewStore(context.Background(), setec.StoreConfig{Client: sv, Secrets: known, AllowLookup: true, PollInterval: -1, Logf: func(string, ...any) {}})
+			if err != nil {
+				rep.Violate(sec.Name, "fields/harness: "+desc, desc+": NewStore: "+err.Error(), nil)
+				cancel()
+				continue
+			}
+			var v threeFields
+			fs, err := setec.ParseFields(&v, "p")
+			if err != nil {
+				rep.Violate(sec.Name, "fields/harness: "+desc, desc+": ParseFields: "+err.Error(), nil)
+				st.Close()
+				cancel()
+				continue
+			}
+			err = fs.Apply(ctx, st)
+			got := []string{v.A, string(v.B), v.C}
+			if err == nil {
+				rep.Violate(sec.Name, "fields/failure-unreported: "+desc, desc+": Apply returned no error", map[string]any{"pos": pos, "how": how})
+			} else if !strings.Contains(err.Error(), "p/"+names[pos]) {
+				rep.Violate(sec.Name, "fields/failure-unreported: "+desc, fmt.Sprintf("%s: the error does not name the failing secret: %v", desc, err), map[string]any{"pos": pos, "how": how})
+			}
+			for i, n := range names {
+				if i != pos && got[i] != "value-"+n {
+					rep.Violate(sec.Name, "fields/others-not-filled: "+desc, fmt.Sprintf("%s: field %d (%s), whose secret the store holds, is %q after Apply (error: %v)", desc, i, n, got[i], err), map[string]any{"pos": pos, "how": how})
+				}
+			}
+			st.Close()
+			cancel()
+		}
+	}
+	sec.States, sec.Transitions = sec.Evaluations, sec.Evaluations
 }
